@@ -309,6 +309,18 @@ func (h *DNSHandler) putMDNSCache(mac net.HardwareAddr, id uint16, ipv4 []packet
 	h.mutex.Unlock()
 }
 
+// skipResource skips the record whose header was just read. The parser has one skip
+// function per section; an error means the record cannot be skipped (truncated message).
+func skipResource(p *dnsmessage.Parser, section string) error {
+	switch section {
+	case "answer":
+		return p.SkipAnswer()
+	case "authority":
+		return p.SkipAuthority()
+	}
+	return p.SkipAdditional()
+}
+
 // ProcesMDNS will process a multicast DNS packet.
 // Note: host cannot be nil.
 func (h *DNSHandler) ProcessMDNS(frame packet.Frame) (ipv4 []packet.IPNameEntry, ipv6 []packet.IPNameEntry, err error) {
@@ -453,7 +465,9 @@ func (h *DNSHandler) ProcessMDNS(frame packet.Frame) (ipv4 []packet.IPNameEntry,
 			r, err := p.PTRResource()
 			if err != nil {
 				LoggerMDNS.Msg("invalid PTR resource").String("name", hdr.Name.String()).Error(err).Write()
-				p.SkipAnswer()
+				if err := skipResource(&p, section); err != nil {
+					return ipv4, ipv6, err
+				}
 				continue
 			}
 			if Debug {
@@ -478,7 +492,9 @@ func (h *DNSHandler) ProcessMDNS(frame packet.Frame) (ipv4 []packet.IPNameEntry,
 				} else {
 					LoggerMDNS.Msg("invalid SRV resource").String("name", hdr.Name.String()).Error(err).Write()
 				}
-				p.SkipAnswer()
+				if err := skipResource(&p, section); err != nil {
+					return ipv4, ipv6, err
+				}
 				continue
 			}
 			if Debug {
@@ -489,7 +505,9 @@ func (h *DNSHandler) ProcessMDNS(frame packet.Frame) (ipv4 []packet.IPNameEntry,
 			r, err := p.TXTResource()
 			if err != nil {
 				LoggerMDNS.Msg("invalid TXT resource").String("name", hdr.Name.String()).Error(err).Write()
-				p.SkipAnswer()
+				if err := skipResource(&p, section); err != nil {
+					return ipv4, ipv6, err
+				}
 				continue
 			}
 			if m := parseTXT(r.TXT); m != "" {
@@ -504,7 +522,9 @@ func (h *DNSHandler) ProcessMDNS(frame packet.Frame) (ipv4 []packet.IPNameEntry,
 			if err != nil {
 				// fmt.Printf("mdns  : error invalid OPT resource name=%s error=[%s]\n", hdr.Name, err)
 				LoggerMDNS.Msg("invalid OPT resource").String("name", hdr.Name.String()).Error(err).Write()
-				p.SkipAnswer()
+				if err := skipResource(&p, section); err != nil {
+					return ipv4, ipv6, err
+				}
 				continue
 			}
 			if Debug {
@@ -516,12 +536,16 @@ func (h *DNSHandler) ProcessMDNS(frame packet.Frame) (ipv4 []packet.IPNameEntry,
 				// fmt.Printf("mdns  : NSEC resource type not implemented %+v\n", hdr)
 				LoggerMDNS.Msg("NSEC resource not implemented").String("name", hdr.Name.String()).Sprintf("hdr", hdr).Write()
 			}
-			p.SkipAnswer()
+			if err := skipResource(&p, section); err != nil {
+				return ipv4, ipv6, err
+			}
 
 		default:
 			// fmt.Printf("mdns  : error unexpected resource type %+v\n", hdr)
 			LoggerMDNS.Msg("ignoring unexpected resource type").String("name", hdr.Name.String()).Sprintf("hdr", hdr).Write()
-			p.SkipAnswer()
+			if err := skipResource(&p, section); err != nil {
+				return ipv4, ipv6, err
+			}
 		}
 	}
 }
